@@ -52,6 +52,13 @@ pub fn check(a: &Analysis, obs: &mut Obs) -> Vec<Violation> {
         out.push(v("first-video-sample-not-presented".into(), "edit list hides the first video sample".into()));
         return out;
     };
+    // sample times count in each track's OWN media timescale: bring both to 90 kHz ticks
+    if vt.mdhd.timescale == 0 || at.mdhd.timescale == 0 {
+        out.push(v("media-timescale-zero".into(), format!("video mdhd timescale {}, audio mdhd timescale {}", vt.mdhd.timescale, at.mdhd.timescale)));
+        return out;
+    }
+    let to90k = |t: &Track, x: i64| -> i64 { (x as i128 * 90_000 / t.mdhd.timescale as i128) as i64 };
+    let pv0 = to90k(vt, pv0);
     let p0 = &lv[0].pts;
     let amb = a.ledger.any_ambiguous as i64;
     let tol = 1 + amb;
@@ -61,7 +68,7 @@ pub fn check(a: &Analysis, obs: &mut Obs) -> Vec<Violation> {
             out.push(v("audio-sample-not-presented".into(), "edit list hides an accepted audio sample".into()));
             return out;
         };
-        let observed = pa - pv0;
+        let observed = to90k(at, pa) - pv0;
         let expected = f.pts.lo().unwrap() as i64 - p0.lo().unwrap() as i64;
         errs.push(observed - expected);
     }
